@@ -78,6 +78,15 @@ class DenError(Exception):
     the definition cannot be interpreted (dangling wire)."""
 
 
+class DenTooLarge(DenError):
+    """The normal form would be too large to compute (inconclusive, not a
+    verdict)."""
+
+
+MAX_PRODUCT_TERMS = 4000
+MAX_NODE_TERMS = 300
+
+
 # ---------------------------------------------------------------------------
 # polynomials
 
@@ -147,6 +156,8 @@ def _mono_mul(m1, m2):
 
 
 def mul(p, q):
+    if len(p) * len(q) > MAX_PRODUCT_TERMS:
+        raise DenTooLarge('product of %d x %d terms' % (len(p), len(q)))
     r = {}
     for m1, c1 in p.items():
         for m2, c2 in q.items():
@@ -283,6 +294,8 @@ def den_source(prog):
             v = fn('u', UNARY_OPCODES[k], [a])
         else:
             raise ValueError('unknown node kind %r' % (k,))
+        if len(v) > MAX_NODE_TERMS:
+            raise DenTooLarge('node %d has %d terms' % (i, len(v)))
         vals.append(v)
     outs = []
     for oi, o in enumerate(prog['outs']):
